@@ -43,7 +43,7 @@ let hex_of_n (x: n) : string =
     go b; Buffer.contents buf
 
 (* ------------------------------------------------------------------ reporting *)
-let max_report = 12
+let max_report = 4
 let counts : (string, int) Hashtbl.t = Hashtbl.create 32
 let stats : (string, int) Hashtbl.t = Hashtbl.create 64
 let bump tbl k n = Hashtbl.replace tbl k (n + (try Hashtbl.find tbl k with Not_found -> 0))
@@ -52,11 +52,13 @@ let statn k n = bump stats k n
 
 let cur_coll = ref "" and cur_hist = ref 0 and cur_step = ref 0 and cur_op = ref ""
 let clean s = String.map (fun c -> if c = '"' then '\'' else c) s
+let opkind () = match String.split_on_char ' ' (String.trim !cur_op) with k :: _ when k <> "" -> k | _ -> "-"
 let mismatch level ~impl ~model =
-  bump counts level 1;
-  if Hashtbl.find counts level <= max_report then
-    Printf.printf "MISMATCH level=%s coll=%s hist=%d step=%d op=\"%s\" impl=\"%s\" expected=\"%s\"\n"
-      level !cur_coll !cur_hist !cur_step (clean !cur_op) (clean impl) (clean model)
+  let key = level ^ " " ^ !cur_coll ^ " " ^ opkind () in
+  bump counts key 1;
+  if Hashtbl.find counts key <= max_report then
+    Printf.printf "MISMATCH level=%s coll=%s opk=%s hist=%d step=%d op=\"%s\" impl=\"%s\" expected=\"%s\"\n"
+      level !cur_coll (opkind ()) !cur_hist !cur_step (clean !cur_op) (clean impl) (clean model)
 
 (* ------------------------------------------------------------------ strings *)
 let words s = List.filter (fun w -> w <> "") (String.split_on_char ' ' s)
@@ -618,9 +620,11 @@ let () =
   flush_pending ~terminated:!ended;
   if not !ended then begin
     (* the harness died: the last line (complete or not) names the operation in flight *)
-    if Hashtbl.find_opt counts "CRASH" = None then
+    if not (Hashtbl.fold (fun k _ acc -> acc || starts_with "CRASH " k) counts false) then
       mismatch "CRASH" ~impl:"trace ends without #END (the harness process died)" ~model:"normal termination"
   end;
   finish_history ();
-  Hashtbl.iter (fun k v -> Printf.printf "COUNT level=%s n=%d\n" k v) counts;
+  Hashtbl.iter (fun k v -> match String.split_on_char ' ' k with
+    | [l; c; o] -> Printf.printf "COUNT level=%s coll=%s opk=%s n=%d\n" l c o v
+    | _ -> Printf.printf "COUNT level=%s coll=- opk=- n=%d\n" k v) counts;
   Hashtbl.iter (fun k v -> Printf.printf "STAT %s=%d\n" k v) stats
